@@ -89,7 +89,13 @@ def plan(tier, seed):
                     targets = ("abs", "rel", "dot", "symlink", "trailing-slash", "dotdot")
                     for tgt in ([rnd.choice(targets)] if tier == "quick" else (rnd.sample(targets, 2) if spell != "{abs}:{n}" else ("abs",))):
                         if spell == "{abs}:{n}" and tgt not in ("abs", "trailing-slash"): tgt = "abs"   # an absolute pattern presumes the canonical path
-                        jobs.append(dict(base, id=f"{j['cid']}|{mode}|{sub}|{spell}|{tgt}", files={"pkg/code.py": b64(j["src"].encode())}, argv=argv, mode=mode, sub=sub, spell=spell, target=tgt, monitors={"snap": False}))
+                        # sibling files that sort before / after the addressed file (selected too): the line filter of code.py must not depend on what was processed before it
+                        sib = ("none", "before", "after", "both")[len(jobs) % 4]
+                        files_ = {"pkg/code.py": b64(j["src"].encode())}; argv_ = list(argv)
+                        extra = [n_ for n_, on in (("pkg/aaa_first.py", sib in ("before", "both")), ("pkg/zzz_last.py", sib in ("after", "both"))) if on]
+                        for n_ in extra: files_[n_] = b64(b"sibling_value = 1\nother_value = 2\n")
+                        if extra and mode == "include": argv_[-1] = ",".join(([extra[0]] if len(jobs) % 8 < 4 else []) + [argv_[-1]] + ([extra[0]] if len(jobs) % 8 >= 4 else []) + extra[1:])
+                        jobs.append(dict(base, id=f"{j['cid']}|{mode}|{sub}|{spell}|{tgt}|sib-{sib}", files=files_, argv=argv_, mode=mode, sub=sub, spell=spell, target=tgt, siblings=sib, monitors={"snap": False}))
         # one pattern list mixing spellings and a second file's entries, interleaved (a:2, other:1, a:6 ...): every entry counts, whatever its neighbours
         full = tuple(range(K))
         for mode in ("exclude", "include"):
